@@ -60,7 +60,10 @@ def run_rules(overlay, pids):
             else:
                 res[pid] = ("pass", [])
         except AnalysisError as e:
-            res[pid] = ("ERROR", ["%s %s" % (e.anchor, e.detail)])
+            if chk.violations:
+                res[pid] = ("VIOLATION", ["%s @ %s: %s" % (v["key"], v["where"], v["detail"][:160]) for v in chk.violations])
+            else:
+                res[pid] = ("ERROR", ["%s %s" % (e.anchor, e.detail)])
         except Exception as e:
             res[pid] = ("CRASH", [repr(e)])
     return res
